@@ -27,6 +27,7 @@ REVERTS = {
     "revert-80005b1-alpha-clamp": ("revert", "80005b1", ["C19"]),
     "revert-49ada26-all-outlier-table": ("revert", "49ada26", ["C12", "C11", "C16"]),
     "revert-ed5f177-consensus-empty-clones": ("revert", "ed5f177", ["C16"]),
+    "revert-c1fcfd3-relative-ess-clamp": ("revert", "c1fcfd3", ["C01"]),
 }
 
 
